@@ -25,7 +25,8 @@ def _uniqify_labels(arr, labels: list[str]) -> np.ndarray:
 
     palette = np.arange(len(labels), dtype=int)
 
-    index = np.digitize(arr, palette, right=True)
+    # site k maps to entry k + 1 of `mapping` (entry 0 is NOSITE)
+    index = np.digitize(arr, palette, right=False)
     return mapping[index]
 
 
